@@ -441,6 +441,15 @@ def split_part(term):
                 return dict(api=_api_name(src), subject=strip_refs(fa[0]), n=None, sep=const_char(fa[1]) or const_str(fa[1]),
                             index=t[2], split=src, vec=None, offset=off, at_subject=subj)
         return None
+    # s.rsplit_once(sep).unwrap_or((whole, "")).i
+    if isinstance(t, tuple) and t[0] == "field" and is_call(strip_refs(t[1]), "Option::unwrap_or", "Option::unwrap_or_default", "Option::unwrap_or_else"):
+        u = strip_refs(t[1])
+        src = strip_refs(call_args(u)[0])
+        if is_call(src, "str>::split_once", "str>::rsplit_once"):
+            sa = call_args(src)
+            return dict(api=_api_name(src), subject=strip_refs(sa[0]), n=None, sep=const_char(sa[1]) or const_str(sa[1]), index=t[2], split=src, vec=None,
+                        default=call_args(u)[1] if len(call_args(u)) > 1 else None)
+        return None
     # tuple-of-Option idiom
     if isinstance(t, tuple) and t[0] == "field" and isinstance(t[1], tuple) and t[1][0] == "field" and t[1][2] == 0 \
             and isinstance(t[1][1], tuple) and t[1][1][0] == "downcast" and t[1][1][2] == "Some":
